@@ -190,7 +190,11 @@ int main(void) {
     nat("linearThreshold", LINEAR_THRESHOLD);
     nat("sortedThreshold", SORTED_THRESHOLD);
     nat("maxRecursionDepth", MAX_RECURSION_DEPTH);
+#ifdef EDN_MAX_NESTING_DEPTH
     nat("maxNestingDepth", EDN_MAX_NESTING_DEPTH);
+#else
+    nat("maxNestingDepth", 4611686018427387904ULL); /* no limit in this tree */
+#endif
     nat("initialBucketCount", INITIAL_BUCKET_COUNT);
     nat("arenaInitialSize", ARENA_INITIAL_SIZE);
     nat("arenaMediumSize", ARENA_MEDIUM_SIZE);
